@@ -380,6 +380,10 @@ pub struct VammCfg {
     pub decimals: Option<u8>,
     /// register with the insurance fund and open at deployment
     pub live: bool,
+    /// instantiate without margin engine and insurance fund (both `None`), the way deployment scripts do before the
+    /// engine exists; nobody holds the engine role of such a vAMM until its owner configures one
+    #[serde(default)]
+    pub unwired: bool,
 }
 
 #[derive(Serialize, Deserialize, Clone, Debug)]
@@ -754,10 +758,8 @@ impl World {
                     &vm::InstantiateMsg {
                         decimals: vd,
                         pricefeed: feed.to_string(),
-                        margin_engine: Some(
-                            cfg.vamm_engine_override.clone().unwrap_or_else(|| engine.to_string()),
-                        ),
-                        insurance_fund: Some(insurance.to_string()),
+                        margin_engine: if vc.unwired { None } else { Some(cfg.vamm_engine_override.clone().unwrap_or_else(|| engine.to_string())) },
+                        insurance_fund: if vc.unwired { None } else { Some(insurance.to_string()) },
                         quote_asset: "USD".into(),
                         base_asset: KEY.into(),
                         quote_asset_reserve: u(vc.quote_reserve),
